@@ -596,34 +596,34 @@ class Rmcp(object):
 
         Returns the received data as array.
         """
-        self._inc_sequence_number()
-
-        header = IpmbHeaderReq()
-        header.netfn = netfn
-        header.rs_lun = lun
-        header.rs_sa = target.ipmb_address
-        header.rq_seq = self.next_sequence_number
-        header.rq_lun = 0
-        header.rq_sa = self.slave_address
-        header.cmdid = cmdid
-
-        # Bridge message
-        bridge_header = None
-        if target.routing:
-            tx_data = encode_bridged_message(target.routing, header, payload,
-                                             self.next_sequence_number)
-            if len(target.routing) > 1:
-                # the outermost Send Message request, whose response carries
-                # (or announces) the reply
-                bridge_header = IpmbHeaderReq()
-                bridge_header.netfn = constants.NETFN_APP
-                bridge_header.rs_lun = 0
-                bridge_header.rq_seq = header.rq_seq
-                bridge_header.cmdid = constants.CMDID_SEND_MESSAGE
-        else:
-            tx_data = encode_ipmb_msg(header, payload)
-
         with self.transaction_lock:
+            self._inc_sequence_number()
+
+            header = IpmbHeaderReq()
+            header.netfn = netfn
+            header.rs_lun = lun
+            header.rs_sa = target.ipmb_address
+            header.rq_seq = self.next_sequence_number
+            header.rq_lun = 0
+            header.rq_sa = self.slave_address
+            header.cmdid = cmdid
+
+            # Bridge message
+            bridge_header = None
+            if target.routing:
+                tx_data = encode_bridged_message(target.routing, header, payload,
+                                                 self.next_sequence_number)
+                if len(target.routing) > 1:
+                    # the outermost Send Message request, whose response carries
+                    # (or announces) the reply
+                    bridge_header = IpmbHeaderReq()
+                    bridge_header.netfn = constants.NETFN_APP
+                    bridge_header.rs_lun = 0
+                    bridge_header.rq_seq = header.rq_seq
+                    bridge_header.cmdid = constants.CMDID_SEND_MESSAGE
+            else:
+                tx_data = encode_ipmb_msg(header, payload)
+
             retry = 0
             while retry <= self.max_retries:
                 try:
